@@ -124,6 +124,16 @@ func (x *Ctx) queryRows(c *rosmar.Collection, stmt string, absKey func(string) s
 		ao.Err = err.Error()
 		return ao
 	}
+	return x.readQueryRows(it, stmt, absKey)
+}
+
+func (x *Ctx) readQueryRows(it sgbucket.QueryResultIterator, stmt string, absKey func(string) string) AuxObs {
+	ao := AuxObs{Rows: []AuxRow{}}
+	defer func() {
+		if p := recover(); p != nil {
+			ao.Err = fmt.Sprint("panic: ", p)
+		}
+	}()
 	var row map[string]string
 	for it.Next(context.Background(), &row) {
 		r := x.emptyRow(absKey(row["id"]))
@@ -179,6 +189,23 @@ func (sr *seqRunner) observeAux(x *Ctx, coll string, suffix string) []AuxObs {
 	add("q-s", x.queryRows(c, `SELECT json_quote(id) AS id FROM $_keyspace WHERE id LIKE `+like+` AND id NOT LIKE '~%' AND xattrs->>'$._s.t' = 'x1' ORDER BY id`, absKey))
 	// the documents that have no xattrs at all (a document whose last xattr was removed is one of them)
 	add("q-noxa", x.queryRows(c, `SELECT json_quote(id) AS id FROM $_keyspace WHERE id LIKE `+like+` AND id NOT LIKE '~%' AND xattrs IS NULL ORDER BY id`, absKey))
+	// a query whose rows are read only after another query (on another collection) has been issued and read
+	{
+		other := sr.env.colls["c0"]
+		if coll == "c0" {
+			other = sr.env.colls["c2"]
+		}
+		ao := AuxObs{Rows: []AuxRow{}}
+		stmt := `SELECT json_quote(id) AS id, json_quote(hex(body)) AS body, json_quote(hex(xattrs)) AS xattrs FROM $_keyspace WHERE id LIKE ` + like + ` AND id NOT LIKE '~%' ORDER BY id`
+		it, err := c.Query(sgbucket.SQLiteLanguage, stmt, nil, sgbucket.RequestPlus, false)
+		if err != nil {
+			ao.Err = err.Error()
+		} else {
+			_ = x.queryRows(other, stmt, absKey) // issued and read while the first iterator is still unread
+			ao = x.readQueryRows(it, stmt, absKey)
+		}
+		add("q-inter", ao)
+	}
 	// a projection whose first column is NULL for documents without that xattr
 	add("q-null", x.queryRows(c, `SELECT xattrs->'$._s.t' AS s, json_quote(id) AS id FROM $_keyspace WHERE id LIKE `+like+` AND id NOT LIKE '~%' ORDER BY id`, absKey))
 	// which variant of the design document GetDDoc / GetDDocs report
